@@ -118,8 +118,11 @@ theorem run_snoc (c : BankCfg) (ins : List BankIn) (i : BankIn) :
   simp [Machine.run, Machine.runFrom_append, Machine.runFrom]
 
 /-- The write strobe word of a register is a valid word whenever the register has at least one word. -/
-theorem lastWord_lt (ord : Ordering) (n : Nat) (h : 0 < n) : lastWord ord n < n := by
+theorem lastWord_lt (ord : WordOrdering) (n : Nat) (h : 0 < n) : lastWord ord n < n := by
   cases ord <;> simp [lastWord] <;> omega
+
+theorem regWords_of_not_raw (bw : Nat) (r : RegSpec) (h : r.kind ≠ .raw) : regWords bw r = nwords bw r.size := by
+  unfold regWords; cases hk : r.kind <;> simp_all
 
 theorem simple_last (c : BankCfg) (k j : Nat) (hkind : (c.spec k).kind ≠ .raw) :
     (c.simple k j).last = (j == lastWord c.ord (nwords c.bw (c.spec k).size)) := by
